@@ -1,6 +1,7 @@
 import RawPanelVerif.Props.C04
 open RawPanelVerif.C04
 #print axioms regex_sources_tie
+#print axioms regex_alternations_tie
 #print axioms press_is_down_then_up
 #print axioms raw_event_lost_counterexample
 #print axioms raw_case_would_panic
@@ -10,3 +11,9 @@ open RawPanelVerif.C04
 #print axioms support_any_order
 #print axioms support_same_set
 #print axioms sysstat_any_subset_order
+#print axioms value_edge_ignored
+#print axioms unknown_kind_silent
+#print axioms items_spec
+#print axioms support_line_any_order
+#print axioms support_lines_same_set
+#print axioms roundtrip_out
